@@ -9,6 +9,33 @@ sys.path.insert(0, os.path.dirname(os.path.abspath(__file__)))
 import framework as fw
 
 
+def replay_file(path, seed, no_build):
+    """Re-run a recorded counterexample against the real build (unpatched
+    dependencies, hooks on).  exit 1 = reproduces, 0 = does not."""
+    from checks.common import real_at
+    if not no_build:
+        ok, logs, _ = fw.build(("real",))
+        if not ok:
+            print("build failed")
+            return 2
+    d = json.load(open(path))
+    det = d.get("replay_detail") or {}
+    if "gadget" in det:
+        o = real_at(["prove_gadget"] + [str(x) for x in det["gadget"]], det["env"], seed)["outputs"]
+        print(json.dumps({"forged_assignment_proved": o["proved"], "verified": o["verified"],
+                          "documented_result_violated": det.get("violated")}, indent=1))
+        return 1 if o["verified"] else 0
+    if "driver" in det:
+        o = real_at(det["driver"], det["env"], seed)["outputs"]
+        real = o
+        for k in det["output"].split("/"):
+            real = real[int(k)] if isinstance(real, list) else real[k]
+        print(json.dumps({"real": real, "spec": det["spec"]}, indent=1))
+        return 1 if int(real, 16) != int(det["spec"], 16) else 0
+    print("no generic replay recipe recorded in", path, "- see the 'replay_detail' and 'smt' fields")
+    return 2
+
+
 def main():
     ap = argparse.ArgumentParser()
     ap.add_argument("prop")
@@ -20,7 +47,7 @@ def main():
     prop = a.prop.upper()
     mod = importlib.import_module(f"checks.{prop.lower()}")
     if a.replay:
-        sys.exit(mod.replay(a.replay))
+        sys.exit(replay_file(a.replay, seed, a.no_build))
     run = fw.Run(prop, a.tier, seed, level=getattr(mod, "LEVEL", "other"))
     if not a.no_build:
         ok, logs, secs = fw.build(getattr(mod, "BUILDS", ("sym", "real")))
